@@ -419,7 +419,13 @@ pub fn generate(prop: &str, base_seed: u64, index: u64) -> RunCfg {
     if prop == "C16" {
         return generate_c16(base_seed, index, C16_SCHEDULES_PER_POINT);
     }
-    let o = opts_for(prop);
+    let mut o = opts_for(prop);
+    if index >= DEEP_FROM {
+        // run indices beyond the quick budget (thorough tier): larger scopes
+        o.max_len = if o.max_len <= 6 { 8 } else { 24 };
+        o.max_threads = (o.max_threads + 2).min(6);
+        o.max_ops += 2;
+    }
     generate_with(prop, &o, base_seed, index)
 }
 
@@ -568,6 +574,9 @@ pub fn generate_with(prop: &str, o: &GenOpts, base_seed: u64, index: u64) -> Run
         sim,
     }
 }
+
+/// run indices from here on use the larger scopes of the thorough tier
+pub const DEEP_FROM: u64 = 70_000;
 
 pub fn prop_code(prop: &str) -> u64 {
     prop.bytes().fold(7u64, |a, b| a.wrapping_mul(131).wrapping_add(b as u64))
